@@ -701,7 +701,11 @@ func main() {
 		if err := os.Symlink(real, link); err != nil {
 			vlib.Fatalf("symlink: %v", err)
 		}
-		x.roots <- filepath.Join(link, "p")
+		rp := filepath.Join(link, "p")
+		if i%2 == 1 {
+			rp += "/" // every other project is opened with a root that ends in a separator
+		}
+		x.roots <- rp
 	}
 	if r.ReplayIn != "" {
 		x.replay()
